@@ -65,6 +65,44 @@ def _paths(c):
         return net
 
     paths["copy_then_edit"] = copy_then_edit
+
+    def used():
+        """A network that has been USED (every link-weighted measure asked once) is still the same network:
+        its attribute matrix, its copy and what it saves are those of the input."""
+        net = base()
+        if c["hasla"]:
+            for nm in ("degree", "indegree", "outdegree", "bildegree", "nsi_degree", "local_cyclemotif_clustering",
+                       "local_midmotif_clustering", "local_inmotif_clustering", "local_outmotif_clustering",
+                       "nsi_local_cyclemotif_clustering", "nsi_local_outmotif_clustering",
+                       "path_lengths", "closeness", "average_path_length", "global_efficiency", "local_vulnerability",
+                       "average_link_attribute", "link_betweenness"):
+                try:
+                    getattr(net, nm)("w") if nm not in ("link_betweenness",) else net.link_betweenness()
+                except Exception:
+                    pass
+        for nm in ("nsi_average_path_length", "nsi_closeness", "nsi_global_efficiency", "betweenness", "laplacian",
+                   "nsi_laplacian", "splitted_copy", "local_clustering"):
+            try:
+                getattr(net, nm)()
+            except Exception:
+                pass
+        return net
+
+    paths["used"] = used
+    paths["used.copy"] = lambda: used().copy()
+
+    def used_saved():
+        import tempfile
+        d = tempfile.mkdtemp(prefix="c05u_", dir="/var/tmp")
+        try:
+            f = os.path.join(d, "net.graphml")
+            used().save(f)
+            return Network.Load(f, silence_level=3)
+        finally:
+            import shutil
+            shutil.rmtree(d, ignore_errors=True)
+
+    paths["used.graphml"] = used_saved
     paths["edge_list_n"] = lambda: finish(Network(edge_list=edges(), n_nodes=n, directed=directed,
                                                   node_weights=w.copy(), silence_level=3))
     # without n_nodes the node count is inferred from the largest index: only for graphs whose
